@@ -258,3 +258,44 @@ theorem analyse_correct (ext : Bool) (ctxSets : List (Name × CSet)) (hctx : ∀
         rw [this]
 
 end Hctl.C17
+
+namespace Hctl.C17
+open Hctl Cli
+
+/-- exhaustive mode lists exactly the states that are in the result for at least one colour -/
+theorem mem_listed (G : Graph) (r : CSet) (s : Nat) :
+    s ∈ listed G r ↔ s < G.nS ∧ ∃ c, c < G.nC ∧ r (zeroPt G s c) = true := by
+  simp [listed]
+
+theorem counts_states_eq_listed (G : Graph) (r : CSet) : (counts G r).2.2 = (listed G r).length := rfl
+
+theorem length_filter_mono {α : Type} (p q : α → Bool) (h : ∀ a, p a = true → q a = true) :
+    ∀ l : List α, (l.filter p).length ≤ (l.filter q).length := by
+  intro l
+  induction l with
+  | nil => simp
+  | cons a l ih =>
+    simp only [List.filter_cons]
+    by_cases hp : p a = true
+    · rw [if_pos hp, if_pos (h a hp)]; simp only [List.length_cons]; omega
+    · rw [if_neg hp]
+      by_cases hq : q a = true
+      · rw [if_pos hq]; simp only [List.length_cons]; omega
+      · rw [if_neg hq]; exact ih
+
+/-- the three printed numbers are monotone in the set; in particular (C03) the numbers reported for a formula never
+exceed those of the graph's unit set -/
+theorem counts_mono (G : Graph) (r U : CSet) (h : ∀ p, r p = true → U p = true) :
+    (counts G r).1 ≤ (counts G U).1 ∧ (counts G r).2.1 ≤ (counts G U).2.1 ∧ (counts G r).2.2 ≤ (counts G U).2.2 := by
+  refine ⟨?_, ?_, ?_⟩
+  · exact length_filter_mono _ _ (fun sc hsc => h _ hsc) _
+  · refine length_filter_mono _ _ (fun c hc => ?_) _
+    simp only [List.any_eq_true] at hc ⊢
+    obtain ⟨s, hs, hr⟩ := hc
+    exact ⟨s, hs, h _ hr⟩
+  · refine length_filter_mono _ _ (fun s hs => ?_) _
+    simp only [List.any_eq_true] at hs ⊢
+    obtain ⟨c, hc, hr⟩ := hs
+    exact ⟨c, hc, h _ hr⟩
+
+end Hctl.C17
